@@ -14,6 +14,7 @@ import (
 	"math/bits"
 	"sort"
 	"testing"
+	"time"
 
 	"github.com/whatap/golib/util/hll"
 	"pgregory.net/rapid"
@@ -551,6 +552,18 @@ func runCase(c Case) *pbt.Result {
 		}
 		if res := unchanged("AddAll"); res != nil {
 			return res
+		}
+		// a counter merged into itself is itself (union with the same set), and the call returns
+		if ret, pv := pbt.WithTimeout(20*time.Second, func() { acc.AddAll(acc) }); !ret {
+			return pbt.Fail("a.AddAll(a) did not return within 20 s")
+		} else if pv != nil {
+			return pbt.Fail("a.AddAll(a) panicked: %v", pv)
+		}
+		if ab := acc.GetBytes(); !bytes.Equal(ab, full) {
+			return pbt.Fail("a.AddAll(a) changed a: %s", diffAt(ab, full))
+		}
+		if ac := acc.Cardinality(); ac != card {
+			return pbt.Fail("after a.AddAll(a): Cardinality() = %d, before %d", ac, card)
 		}
 	}
 
